@@ -530,6 +530,24 @@ func (w *World) AddNode(n *corev1.Node) {
 	w.tracef("env: add node %s labels=%v taints=%v", n.Name, n.Labels, n.Spec.Taints)
 }
 
+// DeleteEDSCascade removes an ExtendedDaemonSet the way a user's delete plus the garbage collector do: the object,
+// the replica sets and the PodTemplate it owns, and the pods those replica sets own.
+func (w *World) DeleteEDSCascade(ns, name string) {
+	for _, rs := range kit.RSs(w.S) {
+		if rs.Namespace == ns && rs.Labels[v1.ExtendedDaemonSetNameLabelKey] == name {
+			w.S.Remove(simapi.KindERS, ns, rs.Name)
+		}
+	}
+	for _, o := range w.S.All(simapi.KindPod) {
+		if o.GetNamespace() == ns && o.GetLabels()[v1.ExtendedDaemonSetNameLabelKey] == name {
+			w.S.Remove(simapi.KindPod, ns, o.GetName())
+		}
+	}
+	w.S.Remove(simapi.KindPodTpl, ns, name)
+	w.S.Remove(simapi.KindEDS, ns, name)
+	w.tracef("user: delete %s/%s (the garbage collector removes its replica sets, pods and PodTemplate)", ns, name)
+}
+
 // RemoveNode deletes a node.
 func (w *World) RemoveNode(name string) {
 	w.S.Remove(simapi.KindNode, "", name)
